@@ -606,6 +606,17 @@ def _replay_accuracy(job, phase):
         for d in degrees:
             phase[0] = 'soc_solve:%s:deg%d' % (sname, d)
             m, total, part = build_acc_model(fe, atom, r, z, pos)       # FRESH model for every call
+            # configurations: on every other case the judged call is not the model's first soc_solve - the user first tried
+            # a cut-off range that excludes the exponents (or another degree) and then calls again with the setting under test
+            pre = (len(atom) + int(round(abs(r) * 8)) + int(round(abs(z) * 4)) + d + len(fe)) % 4
+            try:
+                if pre == 1:
+                    m.soc_solve(sv, degree=d, cuts=(-0.5, 0.5), display=False, params=_params(sname))
+                elif pre == 3:
+                    m.soc_solve(sv, degree=d + 2, cuts=(-30, 0.25), display=False, params=_params(sname))
+            except Exception as e:                                # noqa
+                if not _licence_limited(e):
+                    raise
             try:
                 m.soc_solve(sv, degree=d, display=False, params=_params(sname))
             except Exception as e:                                # noqa
